@@ -306,6 +306,50 @@ def twin_negforms(sources):
     return _unparse_all(sources, lambda path, tree: _NegTwin().visit(tree))
 
 
+class _ChoiceStmt(ast.NodeTransformer):
+    """``x = a if c else b`` (statement level)  ->  ``if c: x = a`` / ``else: x = b``"""
+
+    def visit_Assign(self, node):
+        if len(node.targets) == 1 and isinstance(node.targets[0], ast.Name) and isinstance(node.value, ast.IfExp):
+            v = node.value
+            mk = lambda e: ast.Assign(targets=[ast.Name(id=node.targets[0].id, ctx=ast.Store())], value=e, lineno=node.lineno)
+            return ast.If(test=v.test, body=[mk(v.body)], orelse=[mk(v.orelse)])
+        return node
+
+
+def twin_choice_stmt(sources):
+    return _unparse_all(sources, lambda path, tree: ast.fix_missing_locations(_ChoiceStmt().visit(tree)))
+
+
+def _negate(t):
+    if isinstance(t, ast.UnaryOp) and isinstance(t.op, ast.Not):
+        return t.operand
+    comp = {ast.Is: ast.IsNot, ast.IsNot: ast.Is, ast.In: ast.NotIn, ast.NotIn: ast.In, ast.Eq: ast.NotEq, ast.NotEq: ast.Eq}
+    if isinstance(t, ast.Compare) and len(t.ops) == 1 and type(t.ops[0]) in comp:
+        return ast.Compare(left=t.left, ops=[comp[type(t.ops[0])]()], comparators=t.comparators)
+    return ast.UnaryOp(op=ast.Not(), operand=t)
+
+
+class _FlipElse(ast.NodeTransformer):
+    """``if c: A`` / ``else: B``  ->  ``if not c: B`` / ``else: A``  (two-way ifs only: no elif
+    chain on either side)"""
+
+    def visit_If(self, node, in_chain=False):
+        chain = len(node.orelse) == 1 and isinstance(node.orelse[0], ast.If)
+        node.body = [self.visit(s) for s in node.body]
+        if chain:
+            node.orelse = [self.visit_If(node.orelse[0], True)]
+            return node
+        node.orelse = [self.visit(s) for s in node.orelse]
+        if node.orelse and not in_chain:
+            return ast.copy_location(ast.If(test=_negate(node.test), body=node.orelse, orelse=node.body), node)
+        return node
+
+
+def twin_flip_else(sources):
+    return _unparse_all(sources, lambda path, tree: ast.fix_missing_locations(_FlipElse().visit(tree)))
+
+
 TWINS = {
     'reprint': twin_unparse,
     'rename-locals': twin_rename,
@@ -315,6 +359,8 @@ TWINS = {
     'return-temp': twin_ret_temp,
     'swap-assign': twin_swap,
     'neg-forms': twin_negforms,
+    'choice-stmt': twin_choice_stmt,
+    'flip-else': twin_flip_else,
 }
 
 
